@@ -714,10 +714,12 @@ class Evaluator:
                 return v[1] in hir.pat_ints(p)
             raise Unrecognised("range pattern against a non-integer")
         if k == "lit":
-            if p.get("t") == "bool":
-                return v == ("bool", p["v"])
             if p.get("t") == "int" and v[0] == "sym":
                 return self.oracle((v[1], ("int", p["v"])))
+            if v[0] in ("sym", "app", "bin", "not"):
+                raise Unrecognised(f"literal pattern against an unknown value ({str(v)[:40]})")
+            if p.get("t") == "bool":
+                return v == ("bool", p["v"])
             if p.get("t") == "int":
                 return v[0] == "int" and v[1] == p["v"]
             if p.get("t") == "str":
